@@ -40,7 +40,7 @@ FLAGS = {
     "multi_handler": True,   # C01 arena overflow (fixed 5d577e5): several labels in one catch block
     "wide_shift": True,      # F-C03-e (fixed 57b8d9d): shift counts outside 0..63, negative << operands
     "goto": True,
-    "goto_args": False,      # F-C03-h (reported, not fixed yet): `goto label a b` hands the label name to the first parameter
+    "goto_args": True,       # F-C03-h (fixed 5909a48): `goto label a b` handed the label name to the first parameter
     "floats": True,          # float literals as opaque printed text (f587111 fixed their decimal text)
     "continue_in_switch": True,   # F-C03-f (fixed a96d67a): `continue` directly in a switch body inside a loop was rejected
     "jump_in_catch": True,        # F-C03-g (fixed a96d67a): `break` / `continue` directly in a catch block inside a loop were rejected
@@ -527,7 +527,7 @@ def goto_family(rng, tier):
 
 
 def random_family(rng, tier):
-    n = 1000 if tier == "quick" else 12000
+    n = 1000 if tier == "quick" else 8000
     progs = []
     for i in range(n):
         big = rng.random() < 0.3
@@ -606,6 +606,9 @@ def judge(expected, block):
     return None
 
 
+UNCONFIRMED = []     # cases whose crash/hang in a batch did not reproduce alone
+
+
 class Runner:
     def __init__(self):
         self.drv = vlib.ocaml_driver("C03")
@@ -656,15 +659,30 @@ def evaluate(runner, progs, rng, k):
             res[p.id] = {"status": "framework", "why": m}
             continue
         e = eng[p.id]
+        if isinstance(e, dict) and not e["crash"].get("skipped"):
+            # confirm a crash or a hang by running the case alone with a generous wall-clock budget
+            # (on a busy machine a batch can be starved past the per-case watchdog)
+            env = dict(vlib.ASAN_ENV)
+            env["C03_WATCHDOG"] = "40"
+            rc, o, er = vlib.sh([runner.exe], inp=harness_case(p, srcs[p.id]).text(), env=env, timeout=120)
+            outs, _ = vlib.split_output(o)
+            lines = outs.get(p.id, [])
+            if rc == 0 and lines and lines[-1] == "end":
+                UNCONFIRMED.append(p.id)
+                e = split_blocks(lines[:-1])
+            else:
+                nk = len([x for x in lines if x.startswith("k ")])
+                e = {"crash": {"rc": rc, "stderr": er[-3000:], "timeout": rc in (124, -9), "at": max(0, nk - 1)}}
         if isinstance(e, dict):
             c = e["crash"]
             if c.get("skipped"):
                 res[p.id] = {"status": "skipped"}
                 continue
             kind = "timeout" if c.get("timeout") else "crash"
+            at = min(c.get("at", 0), len(srcs[p.id]) - 1)
             res[p.id] = {"status": "bad", "kind": kind, "why": "the engine %s: rc=%s %s" % (
                 "hung" if kind == "timeout" else "crashed", c.get("rc"), vlib._err_head(c.get("stderr", ""))),
-                "expected": m, "source": srcs[p.id][0][1], "sources": srcs[p.id]}
+                "expected": m, "layout": srcs[p.id][at][0], "source": srcs[p.id][at][1], "sources": srcs[p.id]}
             continue
         bad = None
         if len(e) != len(srcs[p.id]):
@@ -697,7 +715,9 @@ def shrink(runner, p, kind, layout, budget=40):
         if sd is not None:
             srcs.append((layout, L.print_program(q.ast, random.Random(sd))))
         c = harness_case(q, srcs)
-        rc, o, e = vlib.sh([runner.exe], inp=c.text(), env=vlib.ASAN_ENV, timeout=20)
+        env = dict(vlib.ASAN_ENV)
+        env["C03_WATCHDOG"] = "20"
+        rc, o, e = vlib.sh([runner.exe], inp=c.text(), env=env, timeout=60)
         outs, _ = vlib.split_output(o)
         lines = outs.get(q.id, [])
         if rc != 0 or not lines or lines[-1] != "end":
@@ -849,6 +869,7 @@ def check(res, tier, seed):
     res.cov["evaluations"] += sources + 2 * vok + len(vals) + 2 * cmp_ok
     res.cov["distinct_nontrivial"] += len(nontriv)
     res.cov["programs"] = len(progs)
+    res.cov["batch_timeouts_not_reproduced_alone"] = len(UNCONFIRMED)
     res.cov["programs_agreeing"] = ok
     res.cov["dropped_stuck"] = stuck
     res.cov["rewritten_variants_agreeing"] = vok
